@@ -101,6 +101,12 @@ class Adapter:
     def pull_suffix(self, a, ctx):
         return ""
 
+    def pull_line(self, t, calls, rlog, a, ctx):
+        return f"A.pull {t} {draws_str(calls)}" + (self.pull_suffix(a, ctx) if a is not None else "")
+
+    def last_line(self, calls, rlog, a, ctx):
+        return "A.last"
+
     def pt_str(self, a, parts, pt):
         return f"pt {vid(node_of_point(parts, pt))} {flist(pt)}"
     def gen_params(self, rnd, T): ...
@@ -500,8 +506,107 @@ class ZoomingAd(Adapter):
                 f"layers={layers_str(part)} nodes={delta.dump(node_strs(part, lambda nd: ''))} arms={a._adelta.dump(astr)}")
 
 
+def vr_str(nd):
+    lr = fbits(nd.reward[-1]) if nd.reward else "-"
+    lt = fbits(nd.reward_tilde[-1]) if nd.reward_tilde else "-"
+    return f"{len(nd.reward)}:{lr}:{len(nd.rank)}:{nd.rank[-1] if nd.rank else '-'}:{len(nd.reward_tilde)}:{lt}"
+
+
+class VROOMAd(Adapter):
+    name = "VROOM"
+
+    def constrain(self, rnd, kind, K, d):
+        # VROOM deepens the whole tree to floor(log2 n): only binary-child partitions are in the
+        # property's quantifier; a few ternary ones are kept (tiny n) for the recorded crash
+        r = rnd.random()
+        if r < 0.12:
+            return rnd.choice(["kary", "randKary"]), 3, d
+        if kind == "dimBinary":
+            return kind, K, 1
+        if kind in ("kary", "randKary"):
+            return kind, 2, d
+        return kind, K, d
+
+    def gen_params(self, rnd, T):
+        n = rnd.choice([T, T, 2 * T, 100, 64, 128, 20, 33])
+        return {"n": n, "h_max": rnd.choice([100, 100, 3, 5, 8, 1000]), "b": rnd.choice([1.0, 0.5, 2.0]),
+                "f_max": rnd.choice([1.0, 2.0, 10.0])}
+
+    def construct(self, p, box, pcls):
+        import PyXAB.algos.VROOM as VM
+        ad = self
+        if not getattr(VM.VROOM_node, "_verif_wrapped", False):
+            orig = VM.VROOM_node.sample_uniform
+
+            def sample_uniform(node):
+                VM.VROOM_node._verif_last = node
+                return orig(node)
+            VM.VROOM_node.sample_uniform = sample_uniform
+            VM.VROOM_node._verif_wrapped = True
+        if pcls._kind in ("kary", "randKary") and pcls._K > 2:
+            p["n"] = min(p["n"], 20)
+        return VM.VROOM(n=p["n"], h_max=p["h_max"], b=p["b"], f_max=p["f_max"], domain=box, partition=pcls)
+
+    def init_line(self, p, kind, K, box, calls, algo=None):
+        a = algo
+        L1 = np.log(4 * a.n ** 3 / a.delta)
+        L2 = np.log(2 * a.n ** 2 / a.delta)
+        return (f"VROOM.init {kind_str(kind, K)} {box_str(box)} {a.n} {a.search_depth} {a.h_max} {fbits(a.b)} {fbits(a.f_max)} "
+                f"{fbits(L1)} {fbits(L2)} {fbits(a.const)} {draws_str(calls)}"), "ok"
+
+    @staticmethod
+    def vdraw(calls, rlog, base):
+        """assemble the VDraw tokens from the RNG log of one pull / get_last_point"""
+        choice = 0
+        steps = []
+        pts = []
+        queue = sorted(calls, key=lambda c: c["log_range"][0])
+        qi = 0
+        for off, (nm, args, v) in enumerate(rlog):
+            j = base + off
+            if qi < len(queue) and queue[qi]["log_range"][0] <= j < queue[qi]["log_range"][1]:
+                continue                     # a draw consumed inside make_children
+            pending = None
+            if qi < len(queue) and queue[qi]["log_range"][1] <= j:
+                pending = queue[qi]; qi += 1
+            if nm == "choice":
+                choice = v
+            elif nm == "randint":
+                steps.append((pending, v))
+            elif nm == "uniform":
+                pts.append(v)
+        s_ = f"{choice} {len(steps)}"
+        for c, sign in steps:
+            s_ += (f" 1 {draw_str(c)}" if c is not None else " 0") + f" {sign}"
+        s_ += f" {len(pts)}" + "".join(" " + fbits(x) for x in pts)
+        return s_
+
+    def pull_line(self, t, calls, rlog, a, ctx):
+        base = len(ctx["rng"].log) - len(rlog)
+        return f"A.pull {t} {self.vdraw(calls, rlog, base)}"
+
+    def last_line(self, calls, rlog, a, ctx):
+        base = len(ctx["rng"].log) - len(rlog)
+        return f"A.last {self.vdraw(calls, rlog, base)}"
+
+    def pt_str(self, a, parts, pt):
+        import PyXAB.algos.VROOM as VM
+        last = getattr(VM.VROOM_node, "_verif_last", None)
+        return f"pt {vid(last)} {flist(pt)}"
+
+    def dump(self, a, delta):
+        part = a.partition
+        prob = getattr(a, "prob", [])
+        ps = 0.0
+        for x in prob:
+            ps = ps + x
+        ul = getattr(a, "update_list", [])
+        return (f"it={a.iteration} curr={vid(getattr(a, 'curr_node', None))} ul={idlist(ul) if ul else '[]'} nprob={len(prob)} psum={fbits(ps)} "
+                f"depth={part.get_depth()} layers={layers_str(part)} nodes={delta.dump(node_strs(part, vr_str))}")
+
+
 ADAPTERS = {a.name: a for a in [HOOAd(), HCTAd(), VHCTAd(), SOOAd(), DOOAd(), StoSOOAd(), SequOOLAd(),
-                                POOAd(), GPOAd(), PCTAd(), VPCTAd(), ZoomingAd()]}
+                                POOAd(), GPOAd(), PCTAd(), VPCTAd(), ZoomingAd(), VROOMAd()]}
 
 
 # ------------------------------------------------------------------ generic case
@@ -514,6 +619,8 @@ def gen_algo_case(seed, idx, algo=None, force=None, monitors_on=True, T=None, ho
     kind = force.get("kind") or rnd.choice(["binary", "binary", "randBinary", "dimBinary", "kary", "randKary"])
     K = force.get("K") or rnd.choice([2, 3, 3, 4, 5])
     d = force.get("d") or rnd.choice([1, 1, 2, 2, 3] if kind != "dimBinary" else [1, 2, 2, 3])
+    if hasattr(ad, "constrain") and not force.get("kind"):
+        kind, K, d = ad.constrain(rnd, kind, K, d)
     box, bmode = gen_box(rnd, d, force.get("bmode"))
     T = T or force.get("T") or rnd.choice([20, 40, 60, 100, 150])
     rmode = force.get("rmode") or rnd.choice(REWARD_MODES)
@@ -574,27 +681,28 @@ def gen_algo_case(seed, idx, algo=None, force=None, monitors_on=True, T=None, ho
         for i in range(T):
             t = t0 + i
             if i in query_rounds:
+                mark, rmark = len(glog), len(rng.log)
                 try:
                     q = guarded(a.get_last_point)
-                    case.op("A.last", ad.pt_str(a, parts(), q))
+                    case.op(ad.last_line(glog[mark:], rng.log[rmark:], a, ctx), ad.pt_str(a, parts(), q))
                     case.tags["op=query"] += 1
                 except Exception as e:
-                    case.op("A.last", "ERR " + exc_name(e))
+                    case.op(ad.last_line(glog[mark:], rng.log[rmark:], a, ctx), "ERR " + exc_name(e))
                     case.fail("C01", "get_last_point-exception", f"{type(e).__name__}: {e}", step=i, algo=ad.name, exc=type(e).__name__)
                     case.stopped = "query"
                     break
-            mark = len(glog)
+            mark, rmark = len(glog), len(rng.log)
             if "before_pull" in hooks:
                 hooks["before_pull"](ctx, i)
             try:
                 pt = guarded(a.pull, t)
             except Exception as e:
-                case.op(f"A.pull {t} {draws_str(glog[mark:])}", "ERR " + exc_name(e))
+                case.op(ad.pull_line(t, glog[mark:], rng.log[rmark:], None, ctx), "ERR " + exc_name(e))
                 case.fail("C01", "pull-exception", f"{type(e).__name__}: {e}", step=i, algo=ad.name, exc=type(e).__name__)
                 case.stopped = "pull"
                 break
             nd = node_of_point(parts(), pt) if pt is not None else None
-            pull_line = f"A.pull {t} {draws_str(glog[mark:])}" + ad.pull_suffix(a, ctx)
+            pull_line = ad.pull_line(t, glog[mark:], rng.log[rmark:], a, ctx)
             if pt is None:
                 case.op(pull_line, "ERR ReturnedNone")
                 case.fail("C01", "pull-returned-none", "pull returned None", step=i, algo=ad.name)
@@ -625,14 +733,15 @@ def gen_algo_case(seed, idx, algo=None, force=None, monitors_on=True, T=None, ho
             if "after_recv" in hooks:
                 hooks["after_recv"](ctx, i, pt, r)
         if case.stopped is None:
+            mark, rmark = len(glog), len(rng.log)
             try:
                 q = guarded(a.get_last_point)
-                case.op("A.last", ad.pt_str(a, parts(), q))
+                case.op(ad.last_line(glog[mark:], rng.log[rmark:], a, ctx), ad.pt_str(a, parts(), q))
                 ctx["last"] = q
                 if monitors_on:
                     monitors.c01_point(case, box, q, "end", ad.name, what="get_last_point")
             except Exception as e:
-                case.op("A.last", "ERR " + exc_name(e))
+                case.op(ad.last_line(glog[mark:], rng.log[rmark:], a, ctx), "ERR " + exc_name(e))
                 case.fail("C01", "get_last_point-exception", f"{type(e).__name__}: {e}", step="end", algo=ad.name, exc=type(e).__name__)
             if "at_end" in hooks:
                 hooks["at_end"](ctx)
